@@ -30,6 +30,7 @@ BOX = 7.25
 
 
 def cases(tier, seed):
+    yield dict(kind='seeded')
     N = 48 if tier == 'quick' else 160
     for n1d in range(1, N + 1):
         for coord in (0, 1, 2):
@@ -388,26 +389,36 @@ def run_conformance(case):
 
 
 def run(case):
-    return {'config': run_config, 'sched': run_sched, 'sched-unreduced': run_unreduced, 'conformance': run_conformance}[case['kind']](case)
+    return {'seeded': run_seeded, 'config': run_config, 'sched': run_sched, 'sched-unreduced': run_unreduced, 'conformance': run_conformance}[case['kind']](case)
 
 
 def selfcheck():
-    """explorer self-checks + a seeded unsafe partition fed straight to the real _tsc_parallel twin (4 stripes on an
-    8-row grid, bypassing the front end): the explorer must find the lost deposit with one preemption and none with zero."""
     from vf import twin
     twin.selfcheck()
+
+
+def run_seeded(case):
+    """Explorer sanity on the real kernel: a deliberately unsafe partition (4 stripes on an 8-row grid, two particles whose
+    clouds share row 3) handed straight to the real _tsc_parallel twin, bypassing the front end.  POR must flag it, no
+    schedule with 0 preemptions may lose a deposit and some schedule with 1 preemption must.  If this fails, either the
+    explorer is broken or _tsc_parallel no longer processes the stripes it is given as given (reported as a violation,
+    since the explorer's own self-checks have passed at this point)."""
     T = env()
     pos = np.empty((2, 3), dtype=np.float32)
     pos[:] = 1.3 * BOX / 3
     pos[:, 0] = [np.nextafter(np.float32(2 * BOX / 8), np.float32(0)), 4 * BOX / 8]
     ppart, starts, wpart = T['tsc'].partition_parallel(pos, 4, BOX, weights=None, coord=0, nthread=1)
     conflicts, pairs, rel, _, fps, _ = por_run_on(ppart, starts, None, [8, 3, 3], 0.0, np.float32)
+    probs = []
+    n0 = n1 = 0
     if not conflicts:
-        raise RuntimeError('C07 self-check: POR did not flag the seeded unsafe partition')
-    cont = contended_from(fps)
-    n0, _, bad0, _, _ = sched_explore(ppart, starts, None, [8, 3, 3], 0.0, 0, cont, np.float32)
-    n1, _, bad1, _, _ = sched_explore(ppart, starts, None, [8, 3, 3], 0.0, 1, cont, np.float32)
-    if bad0 is not None or bad1 is None or bad1[1] != 1:
-        raise RuntimeError(f'C07 self-check: seeded race not found as expected (bound0 {bad0}, bound1 {bad1})')
-    global SELFCHECK_INFO
-    SELFCHECK_INFO = dict(seeded_race_schedules_bound0=n0, seeded_race_found_after=n1, preemptions=bad1[1])
+        probs.append(dict(sig='seeded-unsafe-partition:not-flagged', msg='stripes 0 and 2 of a 4-stripe partition of an 8-row grid were given one particle each with overlapping clouds, '
+                          'but the two bodies of the first parallel region did not touch a common cell: _tsc_parallel does not process the stripes as partitioned'))
+    else:
+        cont = contended_from(fps)
+        n0, _, bad0, _, _ = sched_explore(ppart, starts, None, [8, 3, 3], 0.0, 0, cont, np.float32)
+        n1, _, bad1, _, _ = sched_explore(ppart, starts, None, [8, 3, 3], 0.0, 1, cont, np.float32)
+        if bad0 is not None or bad1 is None or bad1[1] != 1:
+            probs.append(dict(sig='seeded-unsafe-partition:race-not-found', msg=f'bound 0 -> {bad0}, bound 1 -> {bad1}'))
+    return dict(problems=probs, evals=n0 + n1 + 1, nt=[('seeded-unsafe', n0, n1)], states=max(n0 + n1, 1), transitions=max(n0 + n1, 1), traces=n0 + n1,
+                extra=dict(seeded_race_schedules_bound0=n0, seeded_race_found_after=n1))
